@@ -493,6 +493,16 @@ func (e *Engine) dependsOn(v ssa.Value, pred func(ssa.Value) bool, depth int) bo
 			}
 			return false
 		}
+		// a slice of a local array (a slice literal): its elements
+		if sl, ok := x.(*ssa.Slice); ok {
+			if al := rootAlloc(sl.X); al != nil {
+				for _, sv := range storesIntoPath(al, addrPath(sl.X)) {
+					if visit(sv, d) {
+						return true
+					}
+				}
+			}
+		}
 		// a load from a local variable: follow what was stored into it
 		if ld, ok := x.(*ssa.UnOp); ok && ld.Op == token.MUL {
 			if al := rootAlloc(ld.X); al != nil {
